@@ -255,9 +255,9 @@ type lruOut struct {
 }
 
 type lruSt struct {
-	Cap    int
-	Keys   []string // front = most recently used
-	Vals   map[string]int
+	Cap     int
+	Keys    []string // front = most recently used
+	Vals    map[string]int
 	H, M, E int64
 }
 
@@ -340,7 +340,7 @@ func lruPorcModel(capacity int) porcupine.Model {
 			}
 			return false, s
 		},
-		Equal: func(a, b interface{}) bool { return a.(lruSt).String() == b.(lruSt).String() },
+		Equal:             func(a, b interface{}) bool { return a.(lruSt).String() == b.(lruSt).String() },
 		DescribeOperation: func(in, out interface{}) string { return fmt.Sprintf("%+v -> %+v", in, out) },
 	}
 }
